@@ -220,7 +220,8 @@ func Delete(seq Sequence, offset, length int) Sequence {
 	info = tryExpand(info, offset, -length)
 	seq = WithInfo(seq, info)
 
-	ff := seq.Features()
+	ff := make(FeatureSlice, len(seq.Features()))
+	copy(ff, seq.Features())
 	for i, f := range ff {
 		ff[i].Loc = f.Loc.Expand(offset, -length)
 	}
